@@ -78,17 +78,108 @@ def check_loader(ctx, path, need_first_chunk):
                "Ok reachable from the %s arm without applying %s%s (path %s)" % (name, "the first chunk's changes and " if need_first_chunk else "", "the completely loaded chunks", b.witness_path(arm, leak[0], avoid_blocks=good) if leak else "no apply call found"))
 
 
+def implies_zero(op, c, truth, const_on_left):
+    """does `(len op c) == truth` (or `(c op len)` when const_on_left) force len == 0 ?"""
+    def holds(n):
+        a, b_ = (c, n) if const_on_left else (n, c)
+        r = {"Eq": a == b_, "Ne": a != b_, "Lt": a < b_, "Le": a <= b_, "Gt": a > b_, "Ge": a >= b_}.get(op)
+        return r == truth
+    cands = {0, 1, 2, max(c - 1, 0), c, c + 1, c + 2}
+    sat = {n for n in cands if holds(n)}
+    return sat == {0}
+
+
+def empty_input_edges(b):
+    """edges on which the remaining input is known to be empty: is_empty()==true, or a comparison of a len() with a
+    constant whose outcome on that edge forces len == 0"""
+    edges = []
+    for sb, sw in b.switches():
+        if sw["ty"] != "bool":
+            continue
+        src = b.bool_operand_source(sw["op"])
+        if not src:
+            continue
+        for truth in (True, False):
+            forces = False
+            if src["kind"] == "call" and (src["callee"] or "").endswith("::is_empty") and "Input" in " ".join(src["t"].get("argtys", [])):
+                forces = truth is True
+            elif src["kind"] == "bin" and src["op"] in ("Eq", "Ne", "Lt", "Le", "Gt", "Ge"):
+                ks = [util.op_const(o) for o in src["o"]]
+                if sum(k is not None for k in ks) == 1:
+                    ci = 0 if ks[0] is not None else 1
+                    other = src["o"][1 - ci]
+                    pv = b.provenance(other, through_calls=True)
+                    lens = [c for c in pv.callees() if norm_fn(c).endswith("::len")]
+                    from_input = any("Input" in b.local_ty(l) for l in pv.locals)
+                    if lens and from_input and ks[ci].get("v") is not None:
+                        forces = implies_zero(src["op"], int(ks[ci]["v"]), truth, ci == 0)
+            if forces:
+                operand_value = (not truth) if src["negated"] else truth
+                edges.append(rules.bool_switch_edge(b, sb, operand_value))
+    return edges
+
+
+def check_complete_means_consumed(ctx, f):
+    """R9-consumed: load_changes reports LoadedChanges::Complete only when the whole input has been consumed
+    (a strict load must not succeed with unread bytes left over)."""
+    LC = "automerge::storage::load::load_changes"
+    bodies = [ctx.body(LC)] + [cfg.body(r) for r in f.closures_of(LC)]
+    n = 0
+    for b in bodies:
+        for bi, blk in enumerate(b.blocks):
+            for s in blk["st"]:
+                rv = s["rv"]
+                if rv["k"] == "Agg" and rv.get("adt") == LOADED and rv.get("variant") == "Complete":
+                    n += 1
+                    edges = empty_input_edges(b)
+                    ok = bool(edges) and b.edges_dominate(edges, bi)
+                    ctx.ob("R9-consumed", "load_changes|Complete only when the input is exhausted|%d" % (n - 1), ok, s["sp"],
+                           "dominated by an `input is empty` edge" if ok else "LoadedChanges::Complete can be returned while unread bytes remain (no dominating emptiness test of the input): a strict load would succeed off a chunk boundary")
+    ctx.floor("constructions of LoadedChanges::Complete", n, 1)
+
+
+def check_first_chunk_error(ctx, f):
+    """R1-first: if the first chunk does not parse, the loader returns an error whatever the partial-load policy."""
+    b = ctx.body(LW)
+    PARSE = "automerge::storage::chunk::Chunk::parse"
+    pcalls = [bi for bi, t in b.calls() if callee(t) == PARSE]
+    ctx.floor("Chunk::parse calls in the loader", len(pcalls), 1)
+    n = 0
+    for sb, sw in b.switches():
+        src = b.bool_operand_source(sw["op"])
+        if not src or src["kind"] != "discr":
+            continue
+        pv = b.provenance(src["origin"][0], through_calls=False, follow=cfg.TRANSPARENT)
+        if not any(norm_fn(c) == PARSE for c in pv.callees()):
+            continue
+        ty = util.base_ty(src.get("ty") or "")
+        if ty not in ("core::result::Result", "core::ops::control_flow::ControlFlow"):
+            continue
+        bad = [tb for v, tb in sw["targets"] if (src["vars"] or {}).get(v) in ("Err", "Break")]
+        for tb in bad:
+            n += 1
+            firsts = util.first_ret_assignments(b, tb)
+            ok = bool(firsts) and all((kind == "stmt" and util.is_err_agg(rec["rv"])) or (kind == "call" and util.is_from_residual(rec)) for (_, kind, rec) in firsts)
+            ctx.ob("R1-first", "load_with_options_and_mark_validation|first chunk parse failure returns Err|%d" % (n - 1), ok, util.where(b, sb),
+                   "error propagated" if ok else "a first chunk that fails to parse (e.g. truncated) can still yield Ok")
+    ctx.floor("error edges of the first Chunk::parse", n, 1)
+
+
 def run(ctx):
     ctx.level = "proof"
     ctx.decides = ("both loaders: every Ok path from the Complete and the Partial arm of the LoadedChanges match passes an apply_changes* call whose argument derives from that arm's payload "
                    "(and, in load_with_options, from the first chunk's changes); after Partial an Ok result requires on_partial_load != Error.")
     ctx.not_decided = "where chunk boundaries fall, behaviour for a cut inside the first chunk, panic-freedom (C15)."
     ctx.rule("R9-nodrop", "must-pass-through: arm entry -> Ok only via apply_changes*(payload)")
+    ctx.rule("R9-consumed", "LoadedChanges::Complete is edge-dominated by an emptiness test of the remaining input")
+    ctx.rule("R1-first", "the error edge of the first Chunk::parse reaches only Err returns")
     ctx.rule("R1-partial", "after LoadedChanges::Partial an Ok result is reachable only via on_partial_load != Error")
     f = ctx.facts()
     check_loader(ctx, LW, True)
     check_loader(ctx, LI, False)
     C14.check_partial_error(ctx, f)
+    check_complete_means_consumed(ctx, f)
+    check_first_chunk_error(ctx, f)
     # load_incremental into an empty document goes through the same loader with Ignore (so it inherits the rule above)
     b = ctx.body(LI)
     ctx.ob("R9-nodrop", "load_incremental_log_patches|empty document path uses the full loader", any(callee(t) == "automerge::automerge::Automerge::load_with_options" for _, t in b.calls()), b.rec["sp"], "")
